@@ -378,6 +378,7 @@ impl MatmulHelper {
                     let uj = self.output_dims.min(lj + vecsize);
                     decryptor.decrypt(&outputs.data[di][dj], &mut pt);
                     encoder.decode_polynomial(&pt, &mut buffer);
+                    buffer.resize(self.poly_degree, 0);
                     for i in li..ui {
                         for j in lj..uj {
                             dec[i * self.output_dims + j] = buffer[(i - li) * self.input_block * self.output_block + (j - lj) * self.input_block + self.input_block - 1];
@@ -392,7 +393,9 @@ impl MatmulHelper {
         } else {
             let buffers = outputs.data[0].iter().map(|x| {
                 decryptor.decrypt(x, &mut pt);
-                encoder.decode_polynomial_new(&pt)
+                let mut buffer = encoder.decode_polynomial_new(&pt);
+                buffer.resize(self.poly_degree, 0);
+                buffer
             }).collect::<Vec<_>>();
             let mut li = 0; let mut di = 0; while li < self.batch_size {
                 let ui = self.batch_size.min(li + self.batch_block);
